@@ -256,7 +256,7 @@ def gen_history(rng, length, calpha=CONSTRAINTS, ealpha=EXPRS, balpha=BOOLS, uni
             d.update(e=rng.choice(balpha), extra=extra())
         elif op == "unsat_core":
             d["extra"] = []
-        elif op in ("split", "combine", "merge"):
+        elif op in ("split", "combine", "merge", "pickle"):
             pass
         elif op == "branch":
             if nsolv >= max_solvers:
@@ -411,7 +411,7 @@ def judge(uni, ref, d, outcome):
     """The property statement (C11 / C10-solver) evaluated on one answer.
     outcome = ("ok", value) | ("unsat", msg) | ("err", ExcTypeName, msg).   Returns None or (kind, explanation)."""
     op, s = d["op"], d["s"]
-    if op in ("add", "simplify", "downsize", "branch"):
+    if op in ("add", "simplify", "downsize", "branch", "pickle"):
         if outcome[0] != "ok":
             return ("crash:" + (outcome[1] if outcome[0] == "err" else "UnsatError"), "%s raised %s" % (op, outcome[1:]))
         return None
@@ -645,6 +645,10 @@ def apply_op(uni, solvers, d):
             return ("ok", len(solvers) - 1)
         if op == "unsat_core":
             return ("ok", tuple(s.unsat_core(extra_constraints=ex)))
+        if op == "pickle":
+            import pickle
+            solvers[d["s"]] = pickle.loads(pickle.dumps(s, -1))
+            return ("ok", None)
         if op == "split":
             parts = s.split()
             solvers.extend(parts)
@@ -888,7 +892,7 @@ def signature(prop, cls, cfg, hist, idx, kind):
     if d.get("extra"):
         preds.append("extra")
     prior = set(q["op"] for q in hist[:idx] if q["s"] == d["s"] or q["op"] == "branch")
-    for p in ("eval", "batch_eval", "min", "max", "solution", "simplify", "branch", "downsize"):
+    for p in ("eval", "batch_eval", "min", "max", "solution", "simplify", "branch", "downsize", "pickle"):
         if p in prior:
             preds.append("after-" + p)
     for q in hist[:idx + 1]:
